@@ -112,6 +112,19 @@ def run_case(ctx, case):
         except Exception as e:
             ctx.count("parse_raised")
             return
+        # walks that start at an inner element (the walker must stop at that element's own end, not climb or run on)
+        try:
+            if len(data) % 3 == 0:
+                if kind == "etree":
+                    els = [e for e in tree.iter() if isinstance(e.tag, str) and not e.tag.startswith("<") and e.tag not in ("DOCUMENT_ROOT", "DOCUMENT_FRAGMENT")]
+                else:
+                    els = list(tree.getElementsByTagName("*")) if hasattr(tree, "getElementsByTagName") else []
+                step = max(1, len(els) // 3)
+                for el in els[1::step][:3]:
+                    sub = canon.canon_etree(el) if kind == "etree" else canon.canon_dom(el)
+                    starts.append(("sub-element", el, sub, None))
+        except Exception:
+            ctx.count("sub_element_selection_failed")
         W = h5.walker(kind)
         for sname, node, expflat, startmark in starts:
             label = "%s-walker %s" % (kind, sname)
